@@ -1,4 +1,4 @@
-import PewProofs.LaserEdit
+import PewProofs.LaserEditObj
 
 /-! # C07 — property theorems (statements only depend on `PewModel.LaserEdit`)
 
@@ -7,7 +7,14 @@ import PewProofs.LaserEdit
 abstraction, `entry s n` what the dictionary view of `s` holds under `n`.
 `Inv s`: at least one layer, all layers have the same field names, names distinct, calibration
 keys distinct and (as a set) equal to the field names.  Everything is proved for every state that
-satisfies `Inv` and every operation / operation list — no bound on sizes or lengths. -/
+satisfies `Inv` and every operation / operation list — no bound on sizes or lengths.
+
+Below the content level sits the object level (`World`: a heap of array cells, `Calibration`, `Config`,
+dict objects with identities; `hstep`; `view : World → State`).  The clauses of the property about
+reads ("never modify what is stored") and about the constructor ("copied, so later edits by the caller
+do not leak in") are theorems about that level (`get_allocates_only`, `construct_objects`,
+`foreign_edit_invisible`, `history_view`); what is *not* detached from the caller is stated as well
+(`stored_write_visible`, `write_through_view`, `add_stores_reference`). -/
 namespace Pew.LaserEdit
 
 /-! ## refinement -/
@@ -180,15 +187,21 @@ theorem rename_chain (s : State) (h : Inv s) (a b c : Name) (ha : a ∈ s.elemen
       · rw [if_pos h2] at hxa; exact hca hxa
       · rw [if_neg h2] at hxa; exact h1 hxa.symm
 
-/-- `add` stores exactly the given data and calibration under the new name; nothing else changes -/
-theorem add_entry (s s' : State) (h : Inv s) (n : Name) (ds : List Nat) (c : Nat)
+/-- `add` succeeds only with one array per layer, each of exactly its layer's shape (the code's
+`assert data.shape == self.data.shape`), stores exactly the given data and calibration under the new
+name, and leaves every layer's shape and everything else as it was -/
+theorem add_entry (s s' : State) (h : Inv s) (n : Name) (ds : List ArrIn) (c : Nat)
     (hs : add s n ds c = some s') :
-    entry s' n = some (ds, c) ∧ ∀ k, k ≠ n → entry s' k = entry s k := by
+    ds.map (·.1) = s.layers.map (·.shape) ∧ s'.layers.map (·.shape) = s.layers.map (·.shape) ∧
+    entry s' n = some (ds.map (·.2), c) ∧ ∀ k, k ≠ n → entry s' k = entry s k := by
   have hr := add_refines h n ds c
   rw [hs] at hr
-  obtain ⟨hn, hlen, _⟩ := add_eq_some h hs
+  obtain ⟨hn, hsh, hs'⟩ := add_eq_some h hs
+  refine ⟨hsh, ?_, ?_⟩
+  · rw [hs']
+    exact map_zipWith_left (·.shape) (Layer.addField n) s.layers ds (shapes_length hsh) (fun _ _ _ => rfl)
   simp only [Option.map_some, Spec.add] at hr
-  rw [if_pos ⟨by rw [abs_map_keys]; exact hn, by rw [abs_shapes_length]; exact hlen⟩] at hr
+  rw [if_pos ⟨by rw [abs_map_keys]; exact hn, hsh⟩] at hr
   simp only [Option.some.injEq] at hr
   unfold entry
   rw [hr]
@@ -288,36 +301,221 @@ theorem read_items (s : State) (h : Inv s) (layer : Nat) (t : Option Name) (c : 
       exact get?_of_mem_nodup (by rw [abs_map_keys]; exact h.nodup) he
   · simp at hr
 
-/-- a successful read leaves the state as it is -/
-theorem read_keeps_state (s s' : State) (layer : Nat) (t : Option Name) (c : Bool)
-    (h : step s (.get layer t c) = some s') : s' = s := by
-  simp only [step] at h
-  split at h <;> simp_all
+/-! ## failing calls -/
 
-/-- reads and caller-side edits anywhere in a successful history are invisible: the final state is
-that of the state-changing operations alone -/
-theorem reads_and_caller_edits_invisible (s s' : State) (ops : List Op) (hs : run s ops = some s') :
-    run s (ops.filter Op.changes) = some s' := by
-  induction ops generalizing s with
-  | nil => exact hs
-  | cons op r ih =>
-    simp only [run] at hs
-    cases hstep : step s op with
-    | none => rw [hstep] at hs; simp at hs
-    | some s1 =>
-      rw [hstep] at hs
-      cases op with
-      | add n ds c => simp only [List.filter_cons, Op.changes, if_true, run, hstep]; exact ih s1 hs
-      | remove ns => simp only [List.filter_cons, Op.changes, if_true, run, hstep]; exact ih s1 hs
-      | rename m => simp only [List.filter_cons, Op.changes, if_true, run, hstep]; exact ih s1 hs
-      | get layer t c =>
-        have := read_keeps_state s s1 layer t c hstep
-        subst this
-        simp only [List.filter_cons, Op.changes, Bool.false_eq_true, if_false]; exact ih s1 hs
-      | callerEdit =>
-        simp only [step, Option.some.injEq] at hstep
-        subst hstep
-        simp only [List.filter_cons, Op.changes, Bool.false_eq_true, if_false]; exact ih s hs
+/-- `stepE` (the calls with their exceptions) succeeds exactly when `step` does, with the same result -/
+theorem stepE_ok_iff (s s' : State) (op : Op) : stepE s op = .ok s' ↔ step s op = some s' := by
+  rw [← stepE_toOption, Res.toOption_ok]
+
+/-- A failing `add` raises before anything is assigned when the laser has one layer (`Laser`); in general it
+leaves calibrations, configuration, kind and all shapes alone, and the laser is either exactly as before
+or no longer well-formed (some layers have the new field, a later one does not). -/
+theorem add_fail (s s' : State) (h : Inv s) (n : Name) (ds : List ArrIn) (c : Nat) (e : Err)
+    (hs : stepE s (.add n ds c) = .fail e s') :
+    s'.cal = s.cal ∧ s'.cfg = s.cfg ∧ s'.srr = s.srr ∧ s'.layers.map (·.shape) = s.layers.map (·.shape) ∧
+      (s' = s ∨ ¬ Inv s') ∧ (s.layers.length = 1 → s' = s) := by
+  obtain ⟨h1, h2, h3, h4, h5⟩ := addE_fail h hs
+  refine ⟨h1, h2, h3, h4, h5, ?_⟩
+  intro hlen
+  simp only [stepE, addE] at hs
+  split at hs
+  · simp only [Res.fail.injEq] at hs; exact hs.2.symm
+  · match hls : s.layers, hlen with
+    | [l], _ =>
+      rw [hls] at hs
+      cases ds with
+      | nil =>
+        simp only [addLayersE, Res.fail.injEq] at hs
+        obtain ⟨_, rfl⟩ := hs
+        cases s; simp_all
+      | cons a u =>
+        simp only [addLayersE] at hs
+        cases hl : l.addE n a with
+        | error x =>
+          rw [hl] at hs
+          simp only [Res.fail.injEq] at hs
+          obtain ⟨_, rfl⟩ := hs
+          cases s; simp_all
+        | ok l' => rw [hl] at hs; simp at hs
+
+/-- A failing `remove` raises `KeyError` after the fields have been dropped from every layer and the names
+before the failing one have been popped from the calibrations: the failing name is not (or no longer) a
+key.  The laser is well-formed afterwards exactly if every present name of the list had been popped. -/
+theorem remove_fail (s s' : State) (h : Inv s) (ns : List Name) (e : Err) (hs : stepE s (.remove ns) = .fail e s') :
+    e = .key ∧ s'.layers = s.layers.map (·.drop ns) ∧ s'.cfg = s.cfg ∧ s'.srr = s.srr ∧
+      (∃ k, k < ns.length ∧ s'.cal = s.cal.filter (fun x => decide (x.1 ∉ ns.take k)) ∧
+        ∀ x, ns[k]? = some x → x ∉ keys s'.cal) ∧
+      (Inv s' ↔ ∀ n ∈ ns, n ∈ s.elements → n ∉ keys s'.cal) := by
+  obtain ⟨h1, h2, h3, h4, k, hk, hcal, hx⟩ := removeE_fail hs
+  refine ⟨h1, h2, h3, h4, ⟨k, hk, hcal, hx⟩, ?_⟩
+  have hel : s'.elements = s.elements.filter (fun n => decide (n ∉ ns)) := by
+    simp only [State.elements, h2, elementsOf_map_drop]
+  have hkeys : keys s'.cal = (keys s.cal).filter (fun n => decide (n ∉ ns.take k)) := by
+    rw [hcal]; exact keys_filter_key (fun n => decide (n ∉ ns.take k)) s.cal
+  constructor
+  · intro h' n hn hne hc
+    have := (h'.cal_iff n).1 hc
+    rw [hel] at this
+    simpa [hn] using (List.mem_filter.1 this).2
+  · intro hall
+    refine ⟨by rw [h2]; simpa using h.1, ?_, by rw [hel]; exact h.nodup.filter _, by rw [hkeys]; exact h.cal_nodup.filter _, ?_⟩
+    · intro l' hl'
+      rw [h2] at hl'
+      obtain ⟨l, hl, rfl⟩ := List.mem_map.1 hl'
+      rw [hel]
+      simp only [Layer.drop]
+      rw [keys_filter_key (fun k => decide (k ∉ ns)), h.layer_keys hl]
+    · intro n
+      rw [hel, hkeys]
+      simp only [List.mem_filter, decide_eq_true_eq, h.cal_iff n]
+      constructor
+      · rintro ⟨hne, hnt⟩
+        refine ⟨hne, fun hn => ?_⟩
+        apply hall n hn hne
+        rw [hkeys]
+        exact List.mem_filter.2 ⟨(h.cal_iff n).2 hne, by simpa using hnt⟩
+      · rintro ⟨hne, hnn⟩
+        exact ⟨hne, fun hnt => hnn (List.mem_of_mem_take hnt)⟩
+
+/-- A failing `rename` (two fields would get the same name: `ValueError`) and a failing read leave the
+laser exactly as it was. -/
+theorem rename_get_fail_atomic (s s' : State) (h : Inv s) (e : Err) :
+    (∀ m, stepE s (.rename m) = .fail e s' → e = .value ∧ s' = s) ∧
+    (∀ layer t c, stepE s (.get layer t c) = .fail e s' → s' = s) := by
+  refine ⟨fun m hs => renameE_fail h hs, fun layer t c hs => ?_⟩
+  simp only [stepE] at hs
+  split at hs
+  · simp at hs
+  · simp only [Res.fail.injEq] at hs; exact hs.2.symm
+
+/-! ## the object level: identities, aliasing, who can change what -/
+
+/-- A call on the laser, run on the heap of objects and seen through `view`, is that call of the content
+level — success or exception, result or half-edited state — and the laser's references stay valid. -/
+theorem call_refines (w : World) (hv : Valid w) (op : HOp) (ha : ArgsOK w.heap op) (hc : op.isCall = true) :
+    (hstep w op).map view = stepE (view w) (absOp w.heap op) ∧ Valid (hstep w op).state :=
+  hstep_view' w hv op ha hc
+
+/-- Reads never modify what is stored.  A successful `get` returns the stored values (`readE`), leaves the
+laser object alone, only allocates: every cell, `Calibration`, config, offsets array and dict that existed
+keeps its content.  What it returns is new memory — except for a single element of a `Laser` read
+uncalibrated or through an identity calibration (`returnsView`): that is the stored column itself and
+nothing is allocated. -/
+theorem get_allocates_only (w : World) (hv : Valid w) (layer : Nat) (t : Option Name) (c : Bool) (r : RRes)
+    (h' : Heap) (hg : hGet w layer t c = .ok (r, h')) :
+    readE (view w) layer t c = .ok r.items ∧ view ⟨h', w.laser⟩ = view w ∧
+    w.heap.cells.length ≤ h'.cells.length ∧ (∀ i, i < w.heap.cells.length → h'.cells[i]? = w.heap.cells[i]?) ∧
+    h'.cals = w.heap.cals ∧ h'.cfgs = w.heap.cfgs ∧ h'.offs = w.heap.offs ∧ h'.dicts = w.heap.dicts ∧
+    (returnsView w t c → ∃ a n i, w.laser.data[layer]? = some a ∧ t = some n ∧ get? a.fields n = some i ∧
+      r.cells = [(n, i)] ∧ h' = w.heap) ∧
+    (¬ returnsView w t c → r.allNew w.heap) := by
+  obtain ⟨h1, h2, h3, h4⟩ := (hGet_spec w hv layer t c).1 r h' hg
+  exact ⟨h1, (view_grows hv h2).1, h2.1, h2.2.1, h2.2.2.1, h2.2.2.2.1, h2.2.2.2.2.1, h2.2.2.2.2.2, h3, h4⟩
+
+/-- …and a failing `get` raises what the content level says -/
+theorem get_error (w : World) (hv : Valid w) (layer : Nat) (t : Option Name) (c : Bool) (e : Err)
+    (hg : hGet w layer t c = .error e) : readE (view w) layer t c = .error e :=
+  (hGet_spec w hv layer t c).2 e hg
+
+/-- The constructors, on objects: the new laser stands for `mkState` of the contents of its arguments; its
+data arrays are the caller's arrays themselves (by reference); its dict, every `Calibration` in it and
+its config are objects that did not exist before (copies); a copied config holds the *same* offsets array
+as the caller's; no memory cell is written.  Hypotheses: the arrays and the given calibrations exist. -/
+theorem construct_objects (h : Heap) (srr : Bool) (data : List Arr) (given config : Option Nat) (w : World)
+    (hd : ∀ a ∈ data, ∀ e ∈ a.fields, e.2 < h.cells.length)
+    (hg : ∀ g, given = some g → ∀ e ∈ h.dict g, e.2 < h.cals.length)
+    (hw : hConstruct h srr data given config = some w) :
+    view w = mkState srr (data.map (viewLayer h)) (given.map (fun g => viewDict h (h.dict g)))
+        ((config.map (fun k => (h.cfgOf k).scal)).getD 0) ∧
+    Valid w ∧ w.laser.data = data ∧
+    h.dicts.length ≤ w.laser.cal ∧ (∀ e ∈ w.heap.dict w.laser.cal, h.cals.length ≤ e.2) ∧
+    h.cfgs.length ≤ w.laser.cfg ∧
+    (∀ k, config = some k → (w.heap.cfgOf w.laser.cfg).offs = (h.cfgOf k).offs) ∧ w.heap.cells = h.cells := by
+  obtain ⟨s1, s2, s3, _, s5, s6, s7, s8, s9, _⟩ := hConstruct_spec h srr data given config w hd hg hw
+  exact ⟨s1, s2, s3, s5, s6, s7, s8, s9⟩
+
+/-- in particular the new laser references none of the `Calibration`, dict and config objects that existed
+before the call — whatever the caller passed and whatever else it holds -/
+theorem construct_separate (h : Heap) (srr : Bool) (data : List Arr) (given config : Option Nat) (w : World)
+    (hd : ∀ a ∈ data, ∀ e ∈ a.fields, e.2 < h.cells.length)
+    (hg : ∀ g, given = some g → ∀ e ∈ h.dict g, e.2 < h.cals.length)
+    (hw : hConstruct h srr data given config = some w) (F : Foreign)
+    (hF : (∀ k ∈ F.cals, k < h.cals.length) ∧ (∀ k ∈ F.dicts, k < h.dicts.length) ∧ (∀ k ∈ F.cfgs, k < h.cfgs.length)) :
+    Sep F w :=
+  hConstruct_sep hd hg hw F hF
+
+/-- Later edits by the caller do not leak in: whoever holds a `Calibration`, dict or config object the
+laser does not reference may assign its attributes, write its arrays, delete and insert keys, rebind its
+offsets — the laser (as seen through `view`) is unchanged, still valid and still separate. -/
+theorem foreign_edit_invisible (F : Foreign) (w : World) (hv : Valid w) (hs : Sep F w) (op : HOp)
+    (ha : Allowed F w.heap op) (hc : op.isCall = false) :
+    ∃ w', hstep w op = .ok w' ∧ view w' = view w ∧ w'.laser = w.laser ∧ Valid w' ∧ Sep F w' := by
+  obtain ⟨w', h1, h2, h3, h4, h5, _⟩ :=
+    foreign_edit (h0 := w.heap) hv hs ⟨Nat.le_refl _, fun _ _ => rfl, Nat.le_refl _, fun _ _ _ => rfl⟩ ha hc
+  exact ⟨w', h1, h2, h3, h4, h5⟩
+
+/-- Any history (by induction): calls on the laser — with arrays and calibrations the caller created
+beforehand and does not write to, none of the calibrations being a foreign one —, reads, and edits of the
+foreign objects by their holders, interleaved in any order.  If all calls succeed, the laser's contents
+are those of the content-level run in which the reads and the edits do nothing (`absOp` maps them to
+`get` / `callerEdit`), and the laser is still separate from the foreign objects. -/
+theorem history_view (F : Foreign) (w w' : World) (ops : List HOp) (hv : Valid w) (hs : Sep F w)
+    (hall : ∀ op ∈ ops, Allowed F w.heap op) (hr : hrun w ops = some w') :
+    run (view w) (ops.map (absOp w.heap)) = some (view w') ∧ Valid w' ∧ Sep F w' :=
+  history_view' F w.heap ops w w' hv hs ⟨Nat.le_refl _, fun _ _ => rfl, Nat.le_refl _, fun _ _ _ => rfl⟩ hall hr
+
+/-- What is NOT detached (1): an in-place write into a memory cell of a stored array — by the caller through
+the array it handed to the constructor (stored by reference), or by anyone through a returned view — is a
+write to the stored element: the next read returns the written value. -/
+theorem stored_write_visible (w : World) (hv : Valid w) (layer : Nat) (a : Arr) (n : Name) (i v : Nat)
+    (ha : w.laser.data[layer]? = some a) (hi : get? a.fields n = some i) :
+    readE (view (hstep w (.writeCell i v)).state) layer (some n) false = .ok [(n, v, none)] :=
+  stored_write_visible' w hv layer a n i v ha hi
+
+/-- …so writing through the array returned by a view-returning `get` changes the stored data -/
+theorem write_through_view (w : World) (hv : Valid w) (layer : Nat) (n : Name) (c : Bool) (r : RRes) (h' : Heap)
+    (v : Nat) (hg : hGet w layer (some n) c = .ok (r, h')) (hr : returnsView w (some n) c) :
+    ∃ i, r.cells = [(n, i)] ∧
+      readE (view (hstep ⟨h', w.laser⟩ (.writeCell i v)).state) layer (some n) false = .ok [(n, v, none)] := by
+  obtain ⟨_, _, h3, _⟩ := (hGet_spec w hv layer (some n) c).1 r h' hg
+  obtain ⟨a, n', i, ha, hn, hi, hc, hh⟩ := h3 hr
+  simp only [Option.some.injEq] at hn
+  subst hn hh
+  exact ⟨i, hc, stored_write_visible' w hv layer a n i v ha hi⟩
+
+/-- What is NOT detached (2): `add` stores the caller's `Calibration` object itself; when its holder changes
+it afterwards, the laser's calibration of that element changes with it. -/
+theorem add_stores_reference (w w' : World) (hv : Valid w) (n : Name) (xs : List ArrIn) (k c : Nat)
+    (ha : ArgsOK w.heap (.add n xs (some k))) (hs : hstep w (.add n xs (some k)) = .ok w') :
+    get? (w'.heap.dict w'.laser.cal) n = some k ∧
+      get? (view (hstep w' (.setCal k c)).state).cal n = some c := by
+  obtain ⟨_, h2, h3, _, _⟩ := hAdd_ok_dict hv ha hs
+  refine ⟨h2, ?_⟩
+  have hk : k < w'.heap.cals.length := by rw [h3]; exact ha.2 k rfl
+  simp only [hstep, Res.state, view, viewDict, get?_mapV]
+  rw [show ({ w' with heap := { w'.heap with cals := w'.heap.cals.set k c } } : World).heap.dict w'.laser.cal
+    = w'.heap.dict w'.laser.cal from rfl, h2]
+  simp only [Option.map_some, Option.some.injEq]
+  unfold Heap.calOf
+  simp [List.getElem?_set_self hk]
+
+/-- Memory: after a successful `add` and after `remove` every stored column is new memory (copies); after a
+successful `rename` every layer occupies exactly the cells it occupied before (`rename_fields` returns a view). -/
+theorem memory_after_edit (w : World) (hv : Valid w) :
+    (∀ n xs cal w', ArgsOK w.heap (.add n xs cal) → hstep w (.add n xs cal) = .ok w' →
+      ∀ a ∈ w'.laser.data, ∀ e ∈ a.fields, w.heap.cells.length ≤ e.2) ∧
+    (∀ ns, ∀ a ∈ (hstep w (.remove ns)).state.laser.data, ∀ e ∈ a.fields, w.heap.cells.length ≤ e.2) ∧
+    (∀ m w', hstep w (.rename m) = .ok w' →
+      w'.laser.data.map (fun a => a.fields.map (·.2)) = w.laser.data.map (fun a => a.fields.map (·.2))) := by
+  refine ⟨fun n xs cal w' ha hs => hAdd_ok_fresh hv ha hs, fun ns => hRemove_fresh w hv ns, fun m w' hs => ?_⟩
+  simp only [hstep, hRename] at hs
+  cases hE : renameLayersE m w.laser.data with
+  | error p => rw [hE] at hs; obtain ⟨e, ls⟩ := p; simp at hs
+  | ok ls =>
+    rw [hE] at hs
+    simp only [Res.ok.injEq] at hs
+    subst hs
+    exact renameLayersE_cells hE
 
 /-! ## constructors and the npz round trip -/
 
@@ -328,6 +526,15 @@ theorem construct_refines (srr : Bool) (ls : List Layer) (given : Option Dict) (
     Inv (mkState srr ls given cfg) ∧ abs (mkState srr ls given cfg) = Spec.construct srr ls given cfg :=
   ⟨mkState_inv cfg hl hg, mkState_abs cfg hl hg⟩
 
+/-- the constructor keeps every key of the calibration dict it is given (also keys that name no element):
+the new laser is well-formed exactly when the given keys all name elements.  (`(keys g).Nodup`: a Python
+dict has every key once.) -/
+theorem construct_inv_iff (srr : Bool) (ls : List Layer) (given : Option Dict) (cfg : Nat) (hl : LayersOK ls)
+    (hnd : ∀ g, given = some g → (keys g).Nodup) :
+    (Inv (mkState srr ls given cfg) ↔ GivenOK ls given) ∧
+    ∀ x, x ∈ keys (mkState srr ls given cfg).cal ↔ x ∈ elementsOf ls ∨ ∃ g, given = some g ∧ x ∈ keys g :=
+  ⟨mkState_inv_iff cfg hl hnd, fun x => mem_keys_initCal (elementsOf ls) given x⟩
+
 /-- saving and loading (the stored stack handed to the constructor with the stored calibrations)
 gives a well-formed laser of the same kind that stands for the same dictionary -/
 theorem roundtrip_refines (s : State) (h : Inv s) (hk : KindOK s) :
@@ -335,6 +542,16 @@ theorem roundtrip_refines (s : State) (h : Inv s) (hk : KindOK s) :
   refine ⟨_, roundTrip_some hk, mkState_inv s.cfg h.layersOK h.givenOK, hk, ?_⟩
   rw [mkState_abs s.cfg h.layersOK h.givenOK]
   exact construct_abs_self h
+
+/-- …and on objects: the loaded laser stands for the content-level constructor applied to what was stored,
+occupies only new memory and references no `Calibration`, dict or config object that existed before the
+load — in particular none of the saved laser's, which the caller may go on using -/
+theorem roundtrip_objects (w w' : World) (hv : Valid w) (hw : hRoundTrip w = some w') :
+    view w' = mkState w.laser.srr (view w).layers (some (view w).cal) (view w).cfg ∧ Valid w' ∧
+    (∀ a ∈ w'.laser.data, ∀ e ∈ a.fields, w.heap.cells.length ≤ e.2) ∧
+    ∀ F : Foreign, (∀ k ∈ F.cals, k < w.heap.cals.length) → (∀ k ∈ F.dicts, k < w.heap.dicts.length) →
+      (∀ k ∈ F.cfgs, k < w.heap.cfgs.length) → Sep F w' :=
+  hRoundTrip_spec w w' hv hw
 
 /-! ## non-vacuity -/
 
@@ -348,7 +565,7 @@ example : Inv exSRR ∧ KindOK exSRR := by decide
 /-- swap, 3-cycle, remove, chain onto the freed name, add, reads and a caller edit: all succeed -/
 example : (run exState [.callerEdit, .rename [("A", "B"), ("B", "A")],
     .rename [("A", "B"), ("B", "C"), ("C", "A")], .get 0 none true, .remove ["C"],
-    .rename [("A", "B"), ("B", "C")], .add "A" [7] 3, .get 0 (some "A") true]).isSome = true := by decide
+    .rename [("A", "B"), ("B", "C")], .add "A" [([2, 3], 7)] 3, .get 0 (some "A") true]).isSome = true := by decide
 example : (rename exState [("A", "B"), ("B", "A")]).map (fun s => (s.elements, s.cal))
     = some (["B", "A", "C"], [("B", 2), ("A", 0), ("C", 1)]) := by decide
 example : (rename exSRR [("A", "B"), ("B", "C"), ("C", "A")]).map (fun s => entry s "A")
@@ -357,9 +574,95 @@ example : "A" ∈ exState.elements ∧ "B" ∈ exState.elements ∧ "A" ≠ "B" 
 example : (roundTrip exSRR).isSome = true := by decide
 example : read exState 0 none true = some [("A", 1, some 2), ("B", 3, some 0), ("C", 5, some 1)] ∧
     read exSRR 1 (some "B") false = some [("B", 9, none)] := by decide
-example : (add exState "D" [9] 4).isSome = true ∧ (remove exState ["B", "A"]).isSome = true := by decide
+example : (add exState "D" [([2, 3], 9)] 4).isSome = true ∧ (remove exState ["B", "A"]).isSome = true := by decide
 /-- the success conditions are real: duplicates, absent names and collisions are rejected -/
-example : add exState "A" [9] 4 = none ∧ remove exState ["D"] = none ∧ remove exState ["A", "A"] = none ∧
+example : add exState "A" [([2, 3], 9)] 4 = none ∧ add exState "D" [([3], 9)] 4 = none ∧
+    add exState "D" [([2, 3], 9), ([2, 3], 11)] 4 = none ∧ remove exState ["D"] = none ∧ remove exState ["A", "A"] = none ∧
     rename exState [("A", "B")] = none ∧ rename exState [("A", "D"), ("B", "D")] = none := by decide
+
+/-! ### non-vacuity: failing calls -/
+
+/-- `SRRLaser.add` with a wrong shape in the second layer: the first layer already has the new field -/
+example : stepE exSRR (.add "D" [([2, 3], 13), ([3], 15)] 4) = .fail .assertion
+    { exSRR with layers := [{ shape := [2, 3], fields := [("A", 1), ("B", 3), ("C", 5), ("D", 13)] },
+                            { shape := [2, 3], fields := [("A", 7), ("B", 9), ("C", 11)] }] } ∧
+    ¬ Inv (stepE exSRR (.add "D" [([2, 3], 13), ([3], 15)] 4)).state := by decide
+/-- …with a wrong shape in the first layer, a name that exists, or the wrong number of arrays: nothing happened -/
+example : stepE exSRR (.add "D" [([3], 13), ([2, 3], 15)] 4) = .fail .assertion exSRR ∧
+    stepE exSRR (.add "A" [([2, 3], 13), ([2, 3], 15)] 4) = .fail .value exSRR ∧
+    stepE exSRR (.add "D" [([2, 3], 13)] 4) = .fail .assertion exSRR ∧
+    stepE exState (.add "D" [([3], 13)] 4) = .fail .assertion exState := by decide
+/-- `remove`: present names before the absent one leave a well-formed laser, after it not -/
+example : (stepE exState (.remove ["A", "D"])).err = some .key ∧ Inv (stepE exState (.remove ["A", "D"])).state ∧
+    (stepE exState (.remove ["A", "D"])).state.elements = ["B", "C"] ∧
+    (stepE exState (.remove ["D", "A"])).err = some .key ∧ ¬ Inv (stepE exState (.remove ["D", "A"])).state ∧
+    keys (stepE exState (.remove ["D", "A"])).state.cal = ["A", "B", "C"] ∧
+    (stepE exState (.remove ["A", "A"])).err = some .key ∧ stepE exState (.remove ["D"]) = .fail .key exState := by
+  decide
+example : stepE exState (.rename [("A", "B")]) = .fail .value exState ∧
+    stepE exState (.get 0 (some "D") true) = .fail .value exState ∧
+    stepE exSRR (.get 2 none false) = .fail .index exSRR := by decide
+/-- a stray key given to the constructor is kept: the new laser is not well-formed; `remove` of the stray key
+repairs it; a rename onto the stray key loses the renamed element's calibration -/
+example : LayersOK [exLayer] ∧ ¬ GivenOK [exLayer] (some [("Zz", 1), ("A", 2)]) ∧
+    ¬ Inv (constructLaser exLayer (some [("Zz", 1), ("A", 2)]) 1) ∧
+    (constructLaser exLayer (some [("Zz", 1), ("A", 2)]) 1).cal = [("A", 2), ("B", 0), ("C", 0), ("Zz", 1)] ∧
+    ((stepE (constructLaser exLayer (some [("Zz", 1), ("A", 2)]) 1) (.remove ["Zz"])).toOption.map
+      (fun s => decide (Inv s))) = some true ∧
+    ((stepE (constructLaser exLayer (some [("Zz", 1), ("A", 2)]) 1) (.rename [("A", "Zz")])).toOption.map
+      (fun s => s.cal)) = some [("Zz", 1), ("B", 0), ("C", 0)] := by decide
+
+/-! ### non-vacuity: the object level -/
+
+/-- the caller's objects: an array with cells 0,1,2, two calibrations, a dict `{C: cal 0, A: cal 1}`, a config -/
+def exHeap : Heap := { cells := [1, 3, 5], cals := [1, 2], cfgs := [⟨1, none⟩], offs := [], dicts := [[("C", 0), ("A", 1)]] }
+def exArr : Arr := { shape := [2, 3], fields := [("A", 0), ("B", 1), ("C", 2)] }
+def exWorld : World := (hConstruct exHeap false [exArr] (some 0) (some 0)).getD ⟨exHeap, ⟨false, [], 0, 0⟩⟩
+def exForeign : Foreign := { cals := [0, 1], dicts := [0], cfgs := [0] }
+
+example : hConstruct exHeap false [exArr] (some 0) (some 0) = some exWorld ∧ view exWorld = exState := by decide
+example : Valid exWorld ∧ Sep exForeign exWorld ∧ exWorld.laser.data = [exArr] ∧
+    exWorld.heap.dict exWorld.laser.cal = [("A", 6), ("B", 3), ("C", 5)] := by decide
+/-- a raw single-element read is a view; calibrated by a non-identity calibration it is new memory; an
+all-element read is a copy -/
+example : (hGet exWorld 0 (some "B") false).toOption.map (·.1.cells) = some [("B", 1)] ∧
+    (hGet exWorld 0 (some "B") true).toOption.map (·.1.cells) = some [("B", 1)] ∧
+    (hGet exWorld 0 (some "A") true).toOption.map (·.1.cells) = some [("A", 3)] ∧
+    (hGet exWorld 0 none true).toOption.map (·.1.cells) = some [("A", 3), ("B", 4), ("C", 5)] := by decide
+example : returnsView exWorld (some "B") true ∧ ¬ returnsView exWorld (some "A") true ∧
+    ¬ returnsView exWorld none false := by
+  refine ⟨⟨rfl, "B", rfl, Or.inr ⟨3, by decide, by decide⟩⟩, ?_, ?_⟩
+  · rintro ⟨_, n, hn, h | ⟨k, hk, hk0⟩⟩
+    · simp at h
+    · simp only [Option.some.injEq] at hn
+      subst hn
+      have : get? (exWorld.heap.dict exWorld.laser.cal) "A" = some 6 := by decide
+      rw [this] at hk
+      simp only [Option.some.injEq] at hk
+      subst hk
+      revert hk0
+      decide
+  · rintro ⟨_, n, hn, _⟩
+    simp at hn
+example : (hRoundTrip exWorld).map (fun w => (view w, decide (Valid w), w.laser.data)) =
+    some (exState, true, [{ shape := [2, 3], fields := [("A", 3), ("B", 4), ("C", 5)] }]) := by decide
+/-- a history: the caller edits everything it gave, the laser is edited and read; all calls succeed -/
+def exOps : List HOp := [.setCal 0 9, .setDict 0 [("Q", 1)], .setCfg 0 7, .rename [("A", "B"), ("B", "A")],
+  .get 0 (some "A") true, .add "D" [([2, 3], 0)] none, .setCal 1 11, .remove ["C"]]
+example : (hrun exWorld exOps).isSome = true ∧ ∀ op ∈ exOps, Allowed exForeign exWorld.heap op := by
+  refine ⟨by decide, ?_⟩
+  intro op hop
+  simp only [exOps, List.mem_cons, List.not_mem_nil, or_false] at hop
+  rcases hop with rfl | rfl | rfl | rfl | rfl | rfl | rfl | rfl <;> simp [Allowed, exForeign]
+  decide
+/-- writing through the returned view of "B" changes the stored "B"; the calibration handed to `add` stays shared -/
+example : (view (hstep exWorld (.writeCell 1 99)).state).layers = [{ shape := [2, 3], fields := [("A", 1), ("B", 99), ("C", 5)] }] ∧
+    ((hstep exWorld (.add "D" [([2, 3], 0)] (some 0))).toOption.map
+      (fun w => (view (hstep w (.setCal 0 42)).state).cal)) = some [("A", 2), ("B", 0), ("C", 1), ("D", 42)] := by decide
+/-- `copy.copy(config)` of an `SRRConfig`: a new config object holding the same offsets array -/
+example : let h : Heap := { cells := [1, 3], cals := [], cfgs := [⟨1, some 0⟩], offs := [5], dicts := [] }
+    (hConstruct h true [⟨[2, 2], [("A", 0)]⟩, ⟨[2, 2], [("A", 1)]⟩] none (some 0)).map
+      (fun w => (w.laser.cfg, (w.heap.cfgOf w.laser.cfg).offs, cfgOffsets (hstep w (.writeOffsets 0 8)).state,
+                 cfgOffsets (hstep w (.setOffsets 0 8)).state)) = some (1, some 0, some 8, some 5) := by decide
 
 end Pew.LaserEdit
